@@ -17,6 +17,8 @@ InScope ==
     /\ (c.construct = "tuple3_nested" => Len(c.chain) <= 1)
 \* binary runs: the offending item next to valid items in one file, or alone in its own file that reaches the collector before /
 \* after a file of valid items (arrival forced through the order hook). The required outcome does not depend on the layout.
-Layouts == {"one_file", "bad_file_first", "bad_file_last"}
+\* folder_*: folder-output mode with the offending item in its own CRATE whose name sorts before / after the crate of valid items
+\* (files are written crate by crate in name order): no file of any crate may be created or modified by the failing run.
+Layouts == {"one_file", "bad_file_first", "bad_file_last", "folder_bad_crate_first", "folder_bad_crate_last"}
 Emit == InScope => PrintT(<<"REPLAY", ToJson([case |-> c, must_reject |-> MustReject(c), layouts |-> Layouts])>>)
 =============================================================================
